@@ -65,7 +65,7 @@ class C12(flow.Spec):
                'and keeps - "every pOpIntNamePathOrMethodCall object carries a []byte value", which is not yet derived from the earlier '
                'passes; relocateNamedObjects needs the root at slot 0 to be a ScopeBlock); their fuel is NOT analysed; relocateNamedObjects is chained with '
                'mergeScopeDirectives (_resolve_loop) but not with passes 1-2 (the directive-shape hypothesis is not derived from them); resolveMethodCalls / '
-               'connectNonNamedObjArgs are not chained with parseDeferredBlocks before them (its hypotheses are not derived from the earlier passes)',
+               'connectNonNamedObjArgs are chained with parseDeferredBlocks before them in _tail (below)',
                'C12_parse_total_partial_nopanic_mergeScopeDirectives: mergeScopeDirectives (Find, scopeOf, moveContents, the three frees, the walk '
                'over the moved objects) never panics from ANY live object of ANY state that satisfies R / valid indexes / slices inside, has a '
                'parentless live ScopeBlock root at slot 0, and in which every Scope directive of the current table has the shape the first pass '
@@ -91,7 +91,13 @@ class C12(flow.Spec):
                'the child list of an object that is not itself pending changes only by the NamedFields a pending BankField inserts behind itself into the '
                'list being walked, and those are new, childless and carry the NamedField row (characterisation threaded from parseFieldElements through '
                'parseArg / parseArgs / parseObjectArgs), so the walk steps over them; no parser function changes the table handle (partial-correctness '
-               'judgement hsame, ParserTotalDeferH.v).  NOT proved: dcnt and the Method typing are not derived from the earlier passes; fuel is NOT analysed',
+               'judgement hsame, ParserTotalDeferH.v); the typing hypothesis of resolveMethodCalls is preserved (in parseModeAllBlocks no parser function creates a '
+               'pOpIntNamePathOrMethodCall object - nextOpcode never accepts that opcode - judgement nnp, ParserTotalDeferM.v).  NOT proved: dcnt and the Method typing are '
+               'not derived from the earlier passes; fuel is NOT analysed',
+               'C12_parse_total_partial_nopanic_tail: the LAST THREE passes chained exactly as in parseAML_body (parse_tail; lemma parseAML_body_tail): '
+               'parseDeferredBlocks(0), resolveMethodCalls(0), connectNonNamedObjArgs(0) never panic from any state with the hypotheses of the walk theorem at the root, a '
+               'parentless root and "every pOpIntNamePathOrMethodCall object carries a []byte"; R, valid indexes and slices-inside hold when the tail returns.  '
+               'The hypotheses are NOT derived from passes 1-3; fuel is NOT analysed',
                'the unproved parts of C12_full_parse_total (no Panic / OutOfFuel and R for the later passes, outcome class of load) are covered '
                'by the correspondence of the extracted model (explicit Panic / OutOfFuel outcomes, all passes modelled) with the real parser '
                'and by the harness monitors (outcome class, watchdog, independent link checker, PrettyPrint)',
